@@ -37,10 +37,6 @@ Section Cases.
             SN (Z.to_N (sub_calls_vegas (Z.of_N calls) (Z.of_N rank) (Z.of_N world)));
             SN (Z.to_N (sub_calls_multi_channel (Z.of_N calls) (Z.of_N rank) (Z.of_N world)))]
       | _ => bad end
-    else if String.eqb cmd "usage" then
-      match args with
-      | [SN b; SN log2r] => SL [SN (Z.to_N (usage_k (Z.of_N b) (Z.of_N log2r)))]
-      | _ => bad end
     else if String.eqb cmd "icdf" then
       match args with
       | [SN bins; SN dims; xs; us] =>
@@ -70,6 +66,14 @@ Section Cases.
         match dLof (dF F) ws with
         | Some w => SL [SN (select w (fin_ F u))]
         | _ => bad end
+      | _ => bad end
+    else if String.eqb cmd "selects" then
+      (* one distribution, many canonical numbers *)
+      match args with
+      | [ws; us] =>
+        match dLof (dF F) ws, dLof (dF F) us with
+        | Some w, Some u => let cum := cumulative w in SL (map (fun x => SN (upper_bound cum x)) u)
+        | _, _ => bad end
       | _ => bad end
     else if String.eqb cmd "kahan" then
       match args with
